@@ -140,7 +140,9 @@ type bindGroup struct {
 	GOOS, GOARCH string
 	Files        []*bindFile
 	Truth        []*truthPkg
-	Quick        bool
+	Quick        bool // host platform: main shards of the quick set, observed in the compiled tables
+	XPlat        bool // another platform, release the installed toolchain compiles: cross-platform shards of the quick set
+	SiblingOnly  bool // quick tier: parsed only because the drift rule compares with it; not decided
 }
 
 // ---------------------------------------------------------------- truth: go/types on $GOROOT/src
@@ -959,6 +961,19 @@ type bindCollection struct {
 	Restricted   []string // keys of extract's restricted table
 	RestrictedGo []string // declarations of stdlib/restricted.go
 	API          map[string]map[string]*apiEntry
+	// CompiledRelease: the N of the stdlib/syscall/go1_N_* files the installed toolchain compiles
+	CompiledRelease int
+}
+
+// bindReleaseCompiled: does the installed toolchain satisfy the release tag go1.N?
+func bindReleaseCompiled(rel int) bool {
+	tag := fmt.Sprintf("go1.%d", rel)
+	for _, t := range build.Default.ReleaseTags {
+		if t == tag {
+			return true
+		}
+	}
+	return false
 }
 
 func readRestricted(repo string) (tab, decls []string, err error) {
@@ -1026,6 +1041,18 @@ func bindCollect(repo, tier string) (*bindCollection, error) {
 	if err != nil {
 		return nil, err
 	}
+	sysMax := 0
+	for _, e := range sysEnts {
+		m := bindSysRe.FindStringSubmatch(e.Name())
+		if m == nil {
+			continue
+		}
+		rel, _ := strconv.Atoi(m[1])
+		if rel > sysMax && bindReleaseCompiled(rel) {
+			sysMax = rel
+		}
+	}
+	col.CompiledRelease = sysMax
 	for _, e := range sysEnts {
 		m := bindSysRe.FindStringSubmatch(e.Name())
 		if m == nil {
@@ -1033,14 +1060,16 @@ func bindCollect(repo, tier string) (*bindCollection, error) {
 		}
 		rel, _ := strconv.Atoi(m[1])
 		quick := m[2] == hostOS && m[3] == hostArch
-		if !quick && tier != "thorough" {
-			continue
-		}
+		// the tables of the other platforms: those of the release the installed toolchain compiles are
+		// decided in both tiers (cross-platform shards), the others in the thorough tier only; the quick
+		// tier still reads them, because the drift rule compares the two releases of a table
+		xplat := !quick && rel == sysMax
 		files := []string{"stdlib/syscall/" + e.Name()}
 		if _, err := os.Stat(filepath.Join(std, "unrestricted", e.Name())); err == nil {
 			files = append(files, "stdlib/unrestricted/"+e.Name())
 		}
-		specs = append(specs, &spec{g: &bindGroup{Name: "syscall/" + e.Name(), Release: rel, Complete: true, GOOS: m[2], GOARCH: m[3], Quick: quick},
+		specs = append(specs, &spec{g: &bindGroup{Name: "syscall/" + e.Name(), Release: rel, Complete: true, GOOS: m[2], GOARCH: m[3], Quick: quick,
+			XPlat: xplat, SiblingOnly: !quick && !xplat && tier != "thorough"},
 			files: files, paths: []string{"syscall"}})
 	}
 	// unrestricted files without a syscall counterpart would otherwise be lost
@@ -1063,6 +1092,9 @@ func bindCollect(repo, tier string) (*bindCollection, error) {
 	sort.SliceStable(specs, func(i, j int) bool {
 		if specs[i].g.Quick != specs[j].g.Quick {
 			return specs[i].g.Quick
+		}
+		if specs[i].g.XPlat != specs[j].g.XPlat {
+			return specs[i].g.XPlat
 		}
 		return specs[i].g.Name < specs[j].g.Name
 	})
@@ -1522,6 +1554,151 @@ func bindShardsOf(groups []*bindGroup) (math []*bindGroup, shards [][]*bindGroup
 	return
 }
 
+// ---------------------------------------------------------------- cross-platform shards and release drift
+
+const bindXShards = 16
+
+// bindXShardsOf distributes the cross-platform groups (tables of the other platforms for the release
+// the toolchain compiles) over a fixed number of shards: sorted by platform, consecutive platforms
+// together, so that the tables of one operating system share their strings.
+func bindXShardsOf(groups []*bindGroup) [][]*bindGroup {
+	var xs []*bindGroup
+	for _, g := range groups {
+		if g.XPlat {
+			xs = append(xs, g)
+		}
+	}
+	sort.SliceStable(xs, func(i, j int) bool { return xs[i].Name < xs[j].Name })
+	shards := make([][]*bindGroup, bindXShards)
+	per := (len(xs) + bindXShards - 1) / bindXShards
+	if per == 0 {
+		per = 1
+	}
+	for i, g := range xs {
+		k := i / per
+		if k >= bindXShards {
+			k = bindXShards - 1
+		}
+		shards[k] = append(shards[k], g)
+	}
+	return shards
+}
+
+// bindMissing is the completeness rule on one truth object (Go rendition of Model.obj_complete).
+func bindMissing(g *bindGroup, tp *truthPkg, t *truthObj) string {
+	switch t.Kind {
+	case "genfunc", "gentype", "constraint", "builtin", "other":
+		return ""
+	}
+	if t.Since > g.Release {
+		return ""
+	}
+	key := tp.Path + "/" + tp.Name
+	has := func(name string) bool {
+		for _, f := range g.Files {
+			for _, r := range f.Rows {
+				if r.Key == key && r.Name == name {
+					return true
+				}
+			}
+		}
+		return false
+	}
+	if !has(t.Name) {
+		return "no entry " + t.Name
+	}
+	if t.Kind == "iface" {
+		hasW := false
+		for _, f := range g.Files {
+			for _, w := range f.Wrappers {
+				if w.Name == extractPrefix(tp.Path)+t.Name {
+					hasW = true
+				}
+			}
+		}
+		if !has("_"+t.Name) || !hasW {
+			return "no wrapper entry _" + t.Name
+		}
+	}
+	return ""
+}
+
+func (g *bindGroup) rowOf(key, name string) *bindRow {
+	for _, f := range g.Files {
+		for _, r := range f.Rows {
+			if r.Key == key && r.Name == name {
+				return r
+			}
+		}
+	}
+	return nil
+}
+
+// sibling: the group of the same platform for the other release yaegi ships tables for.
+func (col *bindCollection) sibling(g *bindGroup) *bindGroup {
+	if !strings.HasPrefix(g.Name, "syscall/") {
+		return nil
+	}
+	for _, o := range col.Groups {
+		if o != g && strings.HasPrefix(o.Name, "syscall/") && o.GOOS == g.GOOS && o.GOARCH == g.GOARCH && o.Release != g.Release {
+			return o
+		}
+	}
+	return nil
+}
+
+// bindDrift: the truth objects of a table for another platform than the host's that the installed
+// source declares, $GOROOT/api says nothing about (platform not covered) and BOTH releases of the
+// table lack: release drift that cannot be decided offline (see c14.go).  Only missing entries; a
+// differing value in a table of the compiled release is never excused.
+type bindDriftObj struct {
+	G  *bindGroup
+	TP *truthPkg
+	T  *truthObj
+}
+
+func (col *bindCollection) drift(g *bindGroup) []bindDriftObj {
+	var out []bindDriftObj
+	if g.Quick || !g.Complete || (g.GOOS == runtime.GOOS && g.GOARCH == runtime.GOARCH) {
+		return nil
+	}
+	sib := col.sibling(g)
+	if sib == nil {
+		return nil
+	}
+	for _, tp := range g.Truth {
+		for _, t := range tp.Objs {
+			if t.API != nil || bindMissing(g, tp, t) == "" {
+				continue
+			}
+			if sib.rowOf(tp.Path+"/"+tp.Name, t.Name) == nil {
+				out = append(out, bindDriftObj{g, tp, t})
+			}
+		}
+	}
+	return out
+}
+
+func writeDriftGen(out string, col *bindCollection) error {
+	var b strings.Builder
+	b.WriteString("(* generated by vh tr-bind: truth objects of the cross-platform tables that the installed source declares,\n" +
+		"   $GOROOT/api does not cover (platform not listed) and both releases of the table lack (release drift, undecidable offline);\n" +
+		"   completeness of the cross-platform tables is proved up to these; do not edit *)\n")
+	b.WriteString("From Coq Require Import NArith List.\nImport ListNotations.\n")
+	var ids []string
+	for _, g := range col.Groups {
+		if !g.XPlat {
+			continue
+		}
+		for _, d := range col.drift(g) {
+			fmt.Fprintf(&b, "(* %d: %s.%s (%s) for %s/%s, absent from %s and from its sibling release *)\n", d.T.ID, d.TP.Path, d.T.Name, d.T.Kind, g.GOOS, g.GOARCH, g.Name)
+			ids = append(ids, fmt.Sprintf("%d%%N", d.T.ID))
+		}
+	}
+	fmt.Fprintf(&b, "Definition drift : list N := %s.\n", coqList(ids))
+	return writeIfChanged(filepath.Join(out, "BindXDrift_gen.v"), []byte(b.String()))
+}
+
 func writeRestrictedGen(out string, tab, decls []string) error {
 	var b strings.Builder
 	b.WriteString("(* generated by vh tr-bind from extract/extract.go (restricted) and stdlib/restricted.go; do not edit *)\n")
@@ -1552,6 +1729,15 @@ func trBind(args []string) error {
 	}
 	for i, s := range shards {
 		if err := writeIfChanged(filepath.Join(*out, fmt.Sprintf("Bind_%02d_gen.v", i)), []byte(bindShardText(s))); err != nil {
+			return err
+		}
+	}
+	// the tables of the other platforms (release the toolchain compiles), against go/types per GOOS/GOARCH
+	if err := writeDriftGen(*out, col); err != nil {
+		return err
+	}
+	for i, s := range bindXShardsOf(col.Groups) {
+		if err := writeIfChanged(filepath.Join(*out, fmt.Sprintf("BindX_%02d_gen.v", i)), []byte(bindShardText(s))); err != nil {
 			return err
 		}
 	}
